@@ -278,8 +278,18 @@ func (f *fakeHijacker) Write(p []byte) (int, error) { return len(p), nil }
 func (f *fakeHijacker) WriteHeader(code int)        { f.code = code }
 func (f *fakeHijacker) Hijack() (net.Conn, *bufio.ReadWriter, error) {
 	conn := fakeConn{out: f.out}
-	return conn, bufio.NewReadWriter(bufio.NewReader(bytes.NewReader(nil)), bufio.NewWriter(conn)), nil
+	br := bufio.NewReader(bytes.NewReader(nil))
+	if h09Early {
+		// the HTTP server has already read what the client sent right behind the request head (a first frame in the same
+		// TCP segment): the hijacked reader holds buffered bytes
+		br = bufio.NewReader(bytes.NewReader([]byte("\x81\x82\x01\x02\x03\x04ij")))
+		br.Peek(1)
+	}
+	return conn, bufio.NewReadWriter(br, bufio.NewWriter(conn)), nil
 }
+
+// h09Early: the hijacked reader already holds client bytes (kind H09B)
+var h09Early bool
 
 // h09Wrap: the ResponseWriter handed to the HTTP upgraders is wrapped (kind H09W)
 var h09Wrap bool
@@ -297,6 +307,9 @@ func h09(c *ctx, api, method string, major, minor int, host string, hdr []hmEntr
 	w := &fakeHijacker{out: &bytes.Buffer{}, hdr: http.Header{}}
 	var rw http.ResponseWriter = w
 	kind := "H09"
+	if h09Early {
+		kind = "H09B"
+	}
 	if h09Wrap {
 		// the usual middleware shape: a struct embedding the ResponseWriter (which does NOT promote Hijack) that offers
 		// Unwrap, the way http.ResponseController finds the Hijacker since Go 1.20
